@@ -19,7 +19,7 @@ COMMON_NOTE = ("Trusted: Lean 4.33 kernel with axioms propext/Classical.choice/Q
 
 claim("C01", "Lean 4 proof (induction over head chunk / unrolled loop / vector loop / overlapping tail) + differential correspondence",
       "Machine-checked theorem: the model of the generic vector find_raw (One/Two/Three, any lawful vector type, any unroll factor) returns exactly the first matching address for every memory region, alignment and window; SensibleMoveMask instances (SSE2/AVX2/simd128/small lanes) proved lawful. Tied to the code by running the real generic code on checked small-lane vectors against the model on every run.",
-      COMMON_NOTE + "Proved so far: generic routine + Sensible instances; wrappers/dispatch/SWAR/NEON are added as their theorems land (see DESIGN.md status table).",
+      COMMON_NOTE + "Proved: generic routine for every lawful vector type; Sensible (SSE2/AVX2/simd128/small) and NEON masks lawful; per-ISA wrappers incl. short-length routing; SWAR for all start/end; dispatch `select`; slice forms.",
       "DESIGN.md 7 C01")
 claim("C02", "Lean 4 proof (mirror induction for rfind_raw) + differential correspondence",
       "Machine-checked theorem: the model of the generic vector rfind_raw returns exactly the last matching address for every region/alignment/window; correspondence against the real generic code on checked small-lane vectors.",
@@ -37,6 +37,39 @@ claim("C19", "Lean 4 proof (loop invariant of the rarest-two scan, for an arbitr
       "Machine-checked theorems: for EVERY needle and EVERY ranker u8->u8, Pair::with_ranker returns normally, None iff the needle has < 2 bytes, otherwise distinct in-range offsets <= 254 (the unwrap()s and the assert_ne! are proved unreachable; the 255-byte window is re-checked against the constant regenerated from source); with_indices accepts exactly distinct in-range pairs; finders report the pair they were given.",
       COMMON_NOTE + "Ranker modelled as a total pure function (a user ranker that panics or is impure is outside the model).",
       "DESIGN.md 7 C19")
+
+REST = {
+ "C03": ("Lean 4 proof (per-strategy case analysis of the meta searcher; Two-Way by loop invariants + critical-factorisation certificate proved for every needle; Rabin-Karp rolling-hash invariant; packed pair) + differential correspondence on 5 configurations",
+         "Machine-checked theorem C03.find_all: for every configuration, prefilter setting, ranker, needle, haystack and EVERY PrefilterState the model of Searcher::new + Searcher::find returns exactly the leftmost occurrence (None iff none); one-shot memmem::find likewise; empty needle -> Some(0). Unconditional: the Two-Way certificate (maximal suffix, critical factorisation, period) is proved for all needles (Proofs/TwoWayCert*.lean)."),
+ "C04": ("Lean 4 proof (reverse Two-Way by reversal bridge to the forward certificate; reverse Rabin-Karp; memrchr) + differential correspondence",
+         "Machine-checked theorem C04.rfind_all / oneshot_all: the model of FinderRev / memmem::rfind returns exactly the rightmost occurrence for every needle and haystack; empty needle -> Some(len)."),
+ "C05": ("Lean 4 proof (every load goes through bounds/alignment-checked model loads; master theorems conclude `= ok`, out-of-domain theorems for foreign needles) + load-trace equality with the real generic code on checked small-lane vectors / emulated NEON+simd128, hooked raw reads, guard pages",
+         "Machine-checked theorems: no routine of the model ever performs an out-of-bounds or misaligned load, in its documented domain (corollary of `= ok`) and outside it (Rabin-Karp with a foreign finder, packed pair with a foreign needle). Tie to the code: the load trace of the real generic code (Small<N> checked vectors, emulated NEON/simd128 intrinsics, hooked raw reads in is_equal/Rabin-Karp/SWAR) equals the model's trace on every run, and real SSE2/AVX2 code runs against PROT_NONE guard pages."),
+ "C06": ("Lean 4 proof (refinement of the raw-pointer iterator to an abstract deque of match positions, by induction over arbitrary next/next_back/size_hint/count sequences) + differential correspondence",
+         "Machine-checked theorem C06.refines_cfg/backend: for every haystack, needle set, backend and every finite operation sequence the iterator's outputs equal those of the abstract iterator (front ascending, back descending, each match exactly once, None forever once empty) and size_hint brackets the remaining count."),
+ "C08": ("Lean 4 proof (greedy non-overlapping sequence by induction on the position; size_hint bracket; empty needle) + differential correspondence",
+         "Machine-checked theorems C08.find_iter_all / rfind_iter_all / size_hint: the next() results of find_iter are exactly Spec.greedyFwd then None forever (rfind_iter: greedyRev), for every needle/haystack/configuration, with the prefilter state threaded through; size_hint brackets the matches still to come in every reachable state; empty needle yields 0..=len once."),
+ "C09": ("Lean 4 proof (every configuration's routine equals the same specification; `select` mirrors the cfg chain and is_available) + the same case stream through host AVX2, forced SSE2, forced fallback, emulated NEON, emulated simd128, alloc-only and +avx2 builds",
+         "Machine-checked theorems C09.agree*: for all pairs of configurations every byte-search and substring routine returns the same value. Correspondence: real code in 5 (quick) / 7 (thorough) configurations against the model instance of each."),
+ "C10": ("Lean 4 proof (corollary of C03 being universally quantified over prefilter config, ranker and PrefilterState) + differential correspondence over 7 ranker families x 2 prefilter settings x prefilter states",
+         "Machine-checked theorems C10.find_indep_all / builder_indep_all: results do not depend on the prefilter configuration, the ranker (any function u8->u8) or the adaptive prefilter state; is_effective never faults (after fix F1)."),
+ "C11": ("Lean 4 proof (chunk-wise lane invariant for the vector prefilter incl. re-aligned final chunk; portable prefilter loop invariant; find_simple) + differential correspondence",
+         "Machine-checked theorems: every packed-pair prefilter (generic vector for all lawful V incl. SSE2/AVX2/NEON/simd128, portable, and the meta searcher's short-haystack path) returns a candidate <= the first occurrence, None only if no occurrence, and a candidate carries the pair bytes."),
+ "C12": ("Lean 4 proof per building block (Two-Way fwd/rev incl. certificate for every needle, Rabin-Karp fwd/rev, Shift-Or bit-parallel invariant, packed-pair find) + exhaustive small-alphabet differential correspondence",
+         "Machine-checked theorems: each public building block equals naive leftmost/rightmost search on its documented domain; constructors report unsupported inputs by None."),
+ "C13": ("Lean 4 proof of step-count bounds with explicit constants (counter in the model monad ticks where hook H2 ticks) + step-counter equality with the real code and adversarial families at growing sizes",
+         "Machine-checked bounds: is_equal n/4+2; Rabin-Karp; packed pair; Two-Way search 3*hay+2*needle+1 and construction 6*len+2 (both directions, no prefilter); dispatched memchr scanned+2; prefilter strategies 4*consumed+1020; constant obligations (MAX_LEN<=64 etc.) re-checked against the source. PARTIAL: the composition for Two-Way WITH a prefilter / meta searcher / find_iter totals is in progress (Proofs/Cost*.lean); until it lands those are covered by the executable check (model step counter == real counter on every op; steps <= 16*(n+m)+2000 on the adversarial families up to 2^16 quick / 2^20 thorough)."),
+ "C14": ("Lean 4 proof (`= ok` excludes every fault kind; documented panic iff haystack < min_haystack_len; prefilter state machine total) + debug-assertion/overflow-check build of the real code",
+         "Machine-checked theorems: no routine faults in its documented domain (all debug_assert!s and checked arithmetic sites of the model are discharged); the packed-pair finders panic exactly when haystack.len() < min_haystack_len; PrefilterState::is_effective is total. Two genuine defects found and fixed (F1, F2 in known_findings.json)."),
+ "C15": ("Lean 4 proof over an abstract model of the ifunc cell (any schedule, relaxed loads return any value ever stored) + fresh-process barrier-released multi-threaded runs on three detection outcomes",
+         "Machine-checked theorem C15.any_schedule: every call returns what it returns in isolation, for every number of threads, schedule and load choice. PARTIAL BY NATURE: tearing, the hardware memory model and data races in unsafe Send/Sync impls cannot be expressed in the model (trusted); the extractor checks that the only atomic/interior-mutable state in the crate is the ifunc AtomicPtr."),
+ "C16": ("Lean 4 proof (finder op machine: outputs are a function of needle bytes and ops only; as_ref/clone/into_owned invisible to every continuation) + differential correspondence with needle buffer overwritten after into_owned",
+         "Machine-checked theorems C16.finder_run_all etc.: every find in any op sequence returns leftmost(haystack, needle) regardless of history; copies behave identically; needle() returns the construction bytes."),
+ "C17": ("Lean 4 proof of the ownership/allocation bookkeeping + counting global allocator armed around every real call with the hook recorder off",
+         "Machine-checked theorems: only into_owned of a borrowed needle and clone of an owned one allocate (exact count), search/construction cannot (they have no heap access in the model). PARTIAL BY NATURE: an allocation hidden inside a real search routine is invisible to the model; the counting-allocator correspondence observes it on every C01-C08 op family."),
+}
+for pid, (tech, text) in REST.items():
+    claim(pid, tech, text, COMMON_NOTE + "See DESIGN.md for what is modelled rather than verified.", "DESIGN.md 7 " + pid)
 
 ALL = ["C%02d" % i for i in range(1, 20)]
 
